@@ -74,11 +74,11 @@ func init() {
 // tapConn lets the client hold back what the frame writer writes, alter it, and release it.
 type tapConn struct {
 	net.Conn
-	mu      sync.Mutex
-	hold    bool
-	buf     []byte
-	flipOne bool // flip one bit of the next write (used for the auth message)
-	holdLimit int // keep only about this many held bytes (the rest of a huge frame is never needed)
+	mu        sync.Mutex
+	hold      bool
+	buf       []byte
+	flipOne   bool // flip one bit of the next write (used for the auth message)
+	holdLimit int  // keep only about this many held bytes (the rest of a huge frame is never needed)
 }
 
 func (t *tapConn) Write(b []byte) (int, error) {
@@ -130,19 +130,19 @@ type labHandshakeExtra struct {
 }
 
 type wireClient struct {
-	srvID  discover.NodeID
-	addr   string
-	key    *ecdsa.PrivateKey
-	tap    *tapConn
-	rw     p2p.MsgReadWriter
-	msgs   chan p2p.Msg // everything the node sends after the encryption handshake
-	closed chan struct{}
-	status *statusData
+	srvID     discover.NodeID
+	addr      string
+	key       *ecdsa.PrivateKey
+	tap       *tapConn
+	rw        p2p.MsgReadWriter
+	msgs      chan p2p.Msg // everything the node sends after the encryption handshake
+	closed    chan struct{}
+	status    *statusData
 	onMsg     func(m p2p.Msg) // sub-protocol messages go here instead of the channel
 	td        uint64          // total difficulty (height) announced in the Status; 0 = 1
 	head      types.Hash
 	nodeAlloc uint64 // bytes allocated in the process while only the node was working on the last input
-	r      *rand.Rand
+	r         *rand.Rand
 }
 
 func (c *wireClient) startReader() {
